@@ -840,8 +840,6 @@ private:
      */
     PatternTableMapType                         m_elementPatternTable;
 
-    const PatternTableMapType::const_iterator   m_elementPatternTableEnd;
-
     PatternTableVectorType                      m_elementAnyPatternList;
 
     /**
@@ -850,8 +848,6 @@ private:
      * of specifity.
      */
     PatternTableMapType                         m_attributePatternTable;
-
-    const PatternTableMapType::const_iterator   m_attributePatternTableEnd;
 
     PatternTableVectorType                      m_attributeAnyPatternList;
 
